@@ -408,6 +408,25 @@ func (c *X2Config) check(w *World, pre, post *Dump, ev XEvent, preLen int, liste
 	if c.Props["C11persist"] {
 		vs = append(vs, monPersistInterval(w, f, w.S.Elapsed())...)
 	}
+	if c.Props["C11store"] && ev.Kind == "Save" && w.Store != nil && post != nil {
+		// after a save that returned, the store holds exactly the jobs the runner reports (the clause Shutdown's final save
+		// relies on) - also when the save itself removed the last jobs
+		inStore := map[int]bool{}
+		if n := len(w.Store.saves); n > 0 {
+			for _, pj := range w.Store.saves[n-1].Jobs {
+				inStore[jobIndex(pj.ID)] = true
+			}
+		}
+		for i := range post.Jobs {
+			if !inStore[post.Jobs[i].Idx] {
+				vs = append(vs, Violation{Property: "C11", Rule: "store-after-save", Norm: "reported-job-not-in-store", Msg: fmt.Sprintf("after a save, job %d is reported but the store does not hold it: %s", post.Jobs[i].Idx, post.Short())})
+			}
+			delete(inStore, post.Jobs[i].Idx)
+		}
+		for idx := range inStore {
+			vs = append(vs, Violation{Property: "C11", Rule: "store-after-save", Norm: "store-holds-job-no-longer-reported", Msg: fmt.Sprintf("after a save, the store still holds job %d, which the runner no longer reports: %s", idx, post.Short())})
+		}
+	}
 	if c.Props["C16"] {
 		vs = append(vs, monC16(w, f)...)
 	}
